@@ -143,6 +143,33 @@ where
             b[7] ^= 0x10;
             reparse::<SigmaProof<D::Response>>(&b).map(|pr| check(&p, &pr, "ctx-a"))
         }
+        // the challenge is compared as 32 bytes: also the bits that do not survive the reduction to a scalar count
+        "challenge_msb" => {
+            let mut ok = false;
+            for (pos, mask) in [(31usize, 0x80u8), (31, 0x40), (0, 0x80), (0, 0x40)] {
+                let mut b = bytes.clone();
+                b[pos] ^= mask;
+                if let Some(pr) = reparse::<SigmaProof<D::Response>>(&b) {
+                    ok = ok || check(&p, &pr, "ctx-a");
+                }
+            }
+            Some(ok)
+        }
+        // one more entry in a counted part of the response than the statement has components
+        "response_surplus" => {
+            let mut found = false;
+            let mut any = false;
+            for b in surplus_variants(name, &bytes) {
+                any = true;
+                if let Some(pr) = reparse::<SigmaProof<D::Response>>(&b) {
+                    found = found || check(&p, &pr, "ctx-a");
+                }
+            }
+            if !any {
+                return Ok(());
+            }
+            Some(found)
+        }
         x if x.starts_with("response_") => {
             // the k-th 32-byte scalar counted from the end of the encoding (length prefixes sit in front of them)
             let k: usize = x[9..].parse().unwrap();
@@ -167,6 +194,55 @@ where
         return fail(format!("{}: proof verifies although {} was altered (witness classes {:?}, {} transcript)", name, perturb, classes, if legacy { "legacy" } else { "V1" }), json!(false), json!(true));
     }
     Ok(())
+}
+
+/// Encodings of a proof with one additional element in a length-prefixed part of the response (layouts per protocol).
+fn surplus_variants(name: &str, bytes: &[u8]) -> Vec<Vec<u8>> {
+    let mut out = Vec::new();
+    match name {
+        // challenge 32 | sis: u16 count, 32 each | t 32 | tis: u16 count, (u8 key, 32) each
+        "vcom_eq" => {
+            let n = u16::from_be_bytes([bytes[32], bytes[33]]) as usize;
+            let at = 34 + 32 * n + 32;
+            let m = u16::from_be_bytes([bytes[at], bytes[at + 1]]);
+            let mut b = bytes.to_vec();
+            b[at..at + 2].copy_from_slice(&(m + 1).to_be_bytes());
+            b.push(200);
+            b.extend_from_slice(&bytes[bytes.len() - 32..]);
+            out.push(b);
+            // and one more s_i
+            let mut b = bytes.to_vec();
+            b[32..34].copy_from_slice(&((n + 1) as u16).to_be_bytes());
+            let extra = bytes[34..66].to_vec();
+            b.splice(34 + 32 * n..34 + 32 * n, extra);
+            out.push(b);
+        }
+        // challenge 32 | u32 count, 32 each
+        "aggregate_dlog" => {
+            let n = u32::from_be_bytes([bytes[32], bytes[33], bytes[34], bytes[35]]);
+            let mut b = bytes.to_vec();
+            b[32..36].copy_from_slice(&(n + 1).to_be_bytes());
+            b.extend_from_slice(&bytes[bytes.len() - 32..]);
+            out.push(b);
+        }
+        // challenge 32 | common 32 | u32 count, 64 each | u32 count, 64 each
+        "enc_trans" => {
+            let n1 = u32::from_be_bytes([bytes[64], bytes[65], bytes[66], bytes[67]]) as usize;
+            let at2 = 68 + 64 * n1;
+            let n2 = u32::from_be_bytes([bytes[at2], bytes[at2 + 1], bytes[at2 + 2], bytes[at2 + 3]]) as usize;
+            let mut b = bytes.to_vec();
+            b[at2..at2 + 4].copy_from_slice(&((n2 + 1) as u32).to_be_bytes());
+            b.extend_from_slice(&bytes[bytes.len() - 64..]);
+            out.push(b);
+            let mut b = bytes.to_vec();
+            b[64..68].copy_from_slice(&((n1 + 1) as u32).to_be_bytes());
+            let extra = bytes[68..132].to_vec();
+            b.splice(at2..at2, extra);
+            out.push(b);
+        }
+        _ => {}
+    }
+    out
 }
 
 fn bump<C: Curve>(x: &mut C) { *x = x.plus_point(&C::one_point()) }
@@ -402,6 +478,75 @@ fn run_sigma(row: &J, idx: u64) -> Res {
                 _ => false,
             },
         ),
+        "enc_trans" => {
+            use concordium_base::{
+                encrypted_transfers::proofs::gen_enc_trans_proof_info,
+                sigma_protocols::enc_trans::{EncTrans, EncTransSecret},
+            };
+            let g = pt(1);
+            let h = pt(2);
+            let sk_r = elgamal::SecretKey::<G>::generate(&g, &mut StdRng::seed_from_u64(71));
+            let pk_r = elgamal::PublicKey::from(&sk_r);
+            run_case::<EncTrans<G>>(
+                row,
+                idx,
+                &|w| {
+                    // witness of the model: (sk, a1, a2, ra1, ra2, s1, s2, rs1, rs2); a third chunk with fixed non-zero values is added on both sides
+                    let mut sk = w[0];
+                    if sk.is_zero() {
+                        sk = Fr::one();      // an ElGamal secret key is never zero
+                    }
+                    let pk_s = elgamal::PublicKey { generator: g, key: g.mul_by_scalar(&sk) };
+                    let third = (G::scalar_from_u64(0xdead_beef), G::scalar_from_u64(77), G::scalar_from_u64(0x0bad_cafe), G::scalar_from_u64(78));
+                    let a = [w[1], w[2], third.0];
+                    let ra = [w[3], w[4], third.1];
+                    let sp = [w[5], w[6], third.2];
+                    let rs = [w[7], w[8], third.3];
+                    let enc = |pk: &elgamal::PublicKey<G>, x: &Fr, k: &Fr| elgamal::Cipher(g.mul_by_scalar(k), pk.key.mul_by_scalar(k).plus_point(&h.mul_by_scalar(x)));
+                    let ca: Vec<_> = (0..3).map(|i| enc(&pk_r, &a[i], &ra[i])).collect();
+                    let cs: Vec<_> = (0..3).map(|i| enc(&pk_s, &sp[i], &rs[i])).collect();
+                    // s = sum 2^(32 j) a_j + sum 2^(32 j) s'_j
+                    let two32 = G::scalar_from_u64(1 << 32);
+                    let mut weight = Fr::one();
+                    let mut total = Fr::zero();
+                    for i in 0..3 {
+                        let mut t = a[i];
+                        t.add_assign(&sp[i]);
+                        t.mul_assign(&weight);
+                        total.add_assign(&t);
+                        weight.mul_assign(&two32);
+                    }
+                    let rho = G::scalar_from_u64(991);
+                    let big_s = enc(&pk_s, &total, &rho);
+                    let proto = gen_enc_trans_proof_info(&pk_s, &pk_r, &big_s, &ca, &cs, &h);
+                    let secret = EncTransSecret {
+                        dlog_secret: Rc::new(sk),
+                        encexp1_secrets: (0..3).map(|i| ComEqSecret { r: Randomness::new(a[i]), a: Value::new(ra[i]) }).collect(),
+                        encexp2_secrets: (0..3).map(|i| ComEqSecret { r: Randomness::new(sp[i]), a: Value::new(rs[i]) }).collect(),
+                    };
+                    (proto, secret)
+                },
+                &|p, f| match f {
+                    "dlog_public" => {
+                        bump(&mut p.dlog.public);
+                        true
+                    }
+                    "elg_dec_public" => {
+                        bump(&mut p.elg_dec.public);
+                        true
+                    }
+                    "encexp1_0_commitment" => {
+                        bump(&mut p.encexp1[0].commitment.0);
+                        true
+                    }
+                    "encexp2_1_y" => {
+                        bump(&mut p.encexp2[1].y);
+                        true
+                    }
+                    _ => false,
+                },
+            )
+        }
         "and_dlog_com_eq" => run_case::<AndAdapter<Dlog<G>, ComEq<G, G>>>(
             row,
             idx,
